@@ -14,6 +14,7 @@ import (
 	"bufio"
 	"flag"
 	"testing"
+	"testing/synctest"
 	"fmt"
 	"os"
 	"strings"
@@ -28,6 +29,13 @@ type Runner interface {
 
 // kinds maps a case kind to a constructor taking the CASE parameters.
 var kinds = map[string]func(params []string) Runner{}
+
+// timedKinds are executed inside a testing/synctest bubble (virtual clock): the whole case runs in
+// the bubble's root goroutine; "sleep <ms>" advances the virtual clock.  A Closer is closed at the
+// end of the case so that background goroutines leave the bubble.
+var timedKinds = map[string]bool{}
+
+type Closer interface{ Close() }
 
 // gens maps a generator group (usually a property id) to its generator.
 var gens = map[string]func(g *Gen){}
@@ -76,6 +84,10 @@ func runCase(out *bufio.Writer, flushLine bool, kind string, params []string, op
 	if !ok {
 		fmt.Fprintf(os.Stderr, "harness: unknown kind %q\n", kind)
 		os.Exit(2)
+	}
+	if timedKinds[kind] {
+		runTimedCase(out, kind, params, ops, mk)
+		return
 	}
 	fmt.Fprintf(out, "CASE %s", kind)
 	for _, p := range params {
@@ -154,6 +166,58 @@ func runCase(out *bufio.Writer, flushLine bool, kind string, params []string, op
 }
 
 var hangLimit = 4 * time.Second
+
+// runTimedCase runs one case inside a synctest bubble.
+func runTimedCase(out *bufio.Writer, kind string, params []string, ops []string, mk func([]string) Runner) {
+	fmt.Fprintf(out, "CASE %s", kind)
+	for _, p := range params {
+		fmt.Fprintf(out, " %s", p)
+	}
+	out.WriteByte('\n')
+	var lines []string
+	res := guard(func() string {
+		synctest.Test(theT, func(t *testing.T) {
+			var r Runner
+			if res := guard(func() string { r = mk(params); return "" }); res != "" {
+				lines = append(lines, "new => "+res)
+				return
+			}
+			defer func() {
+				if c, ok := r.(Closer); ok {
+					guard(func() string { c.Close(); return "" })
+				}
+			}()
+			for _, op := range ops {
+				toks := strings.Fields(op)
+				if len(toks) == 0 {
+					continue
+				}
+				var res string
+				if toks[0] == "sleep" {
+					time.Sleep(time.Duration(atoi(toks[1])) * time.Millisecond)
+					synctest.Wait()
+					res = "ok"
+				} else {
+					res = guard(func() string { return r.Do(toks) })
+				}
+				lines = append(lines, strings.Join(toks, " ")+" => "+res)
+				if res == "panic" || res == "hang" {
+					break
+				}
+			}
+		})
+		return ""
+	})
+	for _, l := range lines {
+		out.WriteString(l)
+		out.WriteByte('\n')
+	}
+	if res != "" {
+		out.WriteString("bubble => " + res + "\n")
+	}
+	out.WriteString("END\n")
+	out.Flush()
+}
 
 type hangSignal struct{}
 
